@@ -164,6 +164,9 @@ pub trait Service<S: Spawner<Self>>: Actor + Default {
                 let handle = S::spawn_actor(event_loop);
                 handle.detach();
                 registry.insert(key, Box::new(addr.clone()));
+                // release the registry before waiting for the new instance:
+                // its `started` may itself look up a service
+                drop(registry);
                 debug_assert!(addr.ping().await.is_ok(), "service failed ping");
                 addr
             }
@@ -198,6 +201,9 @@ pub(crate) trait SpawnableService<S: Spawner<Self>>: Service {
                 let handle = S::spawn_actor(event_loop);
                 handle.detach();
                 registry.insert(key, Box::new(addr.clone()));
+                // release the registry before waiting for the new instance:
+                // its `started` may itself look up a service
+                drop(registry);
                 debug_assert!(addr.ping().await.is_ok(), "service failed ping");
                 addr
             }
